@@ -68,6 +68,11 @@ def check_record_sources(eng: Engine) -> list[str]:
 				collect(bf, bc)
 
 		collect(file, cname)
+		if not assigned:
+			# NamedTuple / dataclass style: annotated fields in the class body
+			cls = source.load(file).classes.get(cname)
+			if cls is not None:
+				assigned = {st.target.id for st in cls.body if isinstance(st, ast.AnnAssign) and isinstance(st.target, ast.Name)}
 		declared = set(rec.fields)
 		ghost = {f for f in declared if f.startswith('ghost_')}
 		if assigned != declared - ghost:
